@@ -382,8 +382,12 @@ Definition poll_data (o : list ranswer) (r : recv_stream) : poll (sres (option b
                     | None => q
                     end in
           let ps := if poll_data_delivers_stop then None else r_pending_stop r in
+          (* `self.stream = Some(stream)` happens before the `?` on the chunk: also after a failed read *)
+          let back := if poll_data_puts_back
+                      then (match a with RFail _ => poll_data_puts_back_on_error | _ => true end)
+                      else false in
           (Ready (read_result a),
-           {| r_id := r_id r; r_stream := (if poll_data_puts_back then Some q' else None); r_fut := FutDone; r_pending_stop := ps |},
+           {| r_id := r_id r; r_stream := (if back then Some q' else None); r_fut := FutDone; r_pending_stop := ps |},
            o')
       end
   end.
